@@ -208,7 +208,7 @@ def _scan_file_on_disk(root, rel):
     return ("ok", [(m["unit_name"], m["start"]["line"], m["start"]["column"], m["end"]["line"], m["end"]["column"], m["value"]) for m in e["measurements"]])
 
 
-def check_plan_on_disk(lang, text, edits, ext):
+def check_plan_on_disk(lang, text, edits, ext, encoding="utf-8"):
     """The same relation through the file-based entry point, twice in a row: scan, edit the file, scan again (the second
     scan finds the first one's cache). The extension may be an ambiguous one ('.h')."""
     from vf.harness import tree
@@ -220,7 +220,7 @@ def check_plan_on_disk(lang, text, edits, ext):
         if r[0] == "exc" or r[1] is None:
             return None, None
         base = r[1]
-        (root / rel).write_text(new_text)
+        (root / rel).write_bytes(new_text.encode(encoding))  # 'latin-1': the edited file is no longer valid UTF-8
         r = _scan_file_on_disk(root, rel)
     if r[0] == "exc":
         return base, (f"{lang}:on-disk:{r[1]}", r[2])
@@ -271,7 +271,7 @@ def run_case(case):
     if case.get("kind") == "strip":
         return check_strip(case)
     if case.get("on_disk"):
-        _, bad = check_plan_on_disk(case["lang"], _load(case), case["edits"], case["on_disk"])
+        _, bad = check_plan_on_disk(case["lang"], _load(case), case["edits"], case["on_disk"], case.get("disk_encoding", "utf-8"))
         return bad
     _, bad = check_plan(case["lang"], _load(case), case["edits"])
     return bad
@@ -479,6 +479,12 @@ def gen(col, seed, n, lang, use_corpus):
             rnd = draw(st.randoms(use_true_random=False))
             ast = P.gen_program(rnd, lang, draw(st.sampled_from([10, 20, 35])))
             text = P.render(ast).text
+            if lang in ("C", "C++") and draw(st.integers(0, 3)) == 0:
+                # a disabled region (#if 0 ... #endif: comment tokens to the lexer) somewhere in the base program; the plan
+                # below may then insert or remove blank and comment lines inside it as anywhere else
+                b = safe_lines(lang, text)[0]
+                at = draw(st.sampled_from(b))
+                text, _ = apply_plan(text, [{"after": at, "lines": ["#if 0", "  dead_call(1);", "", "  // kept for reference", "  if (x) { y(); }", "#endif"]}])
             if draw(st.integers(0, 7)) == 0:
                 text = "\ufeff" + text  # a file saved with a byte order mark
             case = {"lang": lang, "text": text}
@@ -499,7 +505,21 @@ def gen(col, seed, n, lang, use_corpus):
             if lang in ("C", "C++") and int(digest(text), 16) % 2 == 0:
                 ext = "h" if lang == "C" else "hpp"
             case = dict(case, on_disk=ext)
-            base, bad = check_plan_on_disk(lang, text, edits, ext)
+            enc = "utf-8"
+            if int(digest(text), 16) % 15 == 0:
+                # the edit makes the file invalid UTF-8 far from its start: > 8 KiB of ASCII comment lines on top, and
+                # a comment with an ISO-8859-1 letter after the last line, the file stored as ISO-8859-1
+                lead = "#" if lang == "Python" else "//"
+                last = max(safe_lines(lang, text)[0])
+                edits = [e for e in edits if not ("after" in e and e["after"] in (0, last))]
+                edits = edits + [{"after": 0, "lines": [f"{lead} {'padding ' * 7}{i}" for i in range(160)], "kind": "comment"},
+                                 {"after": last, "lines": [f"{lead} d\u00e9but"], "kind": "comment"}]
+                if all(ord(ch) < 256 for ch in apply_plan(text, edits)[0]):
+                    enc = "latin-1"
+                    case = dict(case, edits=edits, disk_encoding=enc)
+                    col.label("on-disk:edited-file-not-utf8-beyond-8KiB")
+            base, bad = check_plan_on_disk(lang, text, case["edits"], ext, enc)
+            edits = case["edits"]
             col.label("via:scan-edit-scan-on-disk", f"ext:{ext}")
         else:
             base, bad = check_plan(lang, text, edits)
@@ -514,6 +534,8 @@ def gen(col, seed, n, lang, use_corpus):
         col.label(f"lang:{lang}", "base:corpus" if "corpus" in case else "base:generated")
         if text.startswith("\ufeff"):
             col.label("base:with-bom")
+        if "#if 0\n" in text and "corpus" not in case:
+            col.label("base:with-disabled-region")
         if nt:
             col.nontrivial.add(digest(case))
             col.sample({"lang": lang, "base": case.get("corpus", "generated program"), "edits": edits[:6]})
